@@ -17,6 +17,7 @@ package main
 
 import (
 	"go/ast"
+	"go/token"
 	"go/types"
 	"math/big"
 	"strings"
@@ -142,6 +143,8 @@ func init() {
 		var cust *Term
 		if sl, ok := args[0].(*SliceVal); ok && sl.reg != nil {
 			cust = env.bstr(sl)
+		} else if sv, ok := args[0].(*StrVal); ok && strAbs(sv) != nil {
+			cust = strAbs(sv)
 		} else {
 			cust = mkIntVarR(e.freshName("thxof.cust"), nil, nil)
 		}
@@ -204,14 +207,24 @@ func init() {
 		}
 		want := exprString(n.Args[1])
 		if iv.dyn != nil {
-			return mkAnd(mkNot(iv.null), mkBool(strings.HasSuffix(types.TypeString(iv.dyn, func(*types.Package) string { return "" }), want)))
+			return mkAnd(mkNot(iv.null), mkBool(strings.TrimPrefix(types.TypeString(iv.dyn, func(*types.Package) string { return "" }), "*") == want))
 		}
 		if iv.null.IsConst() && iv.null.Val.Sign() != 0 {
 			return tFalse
 		}
 		for _, t := range iv.notDyn {
-			if strings.HasSuffix(types.TypeString(t, func(*types.Package) string { return "" }), want) {
+			if strings.TrimPrefix(types.TypeString(t, func(*types.Package) string { return "" }), "*") == want {
 				return tFalse
+			}
+		}
+		// symbolic interface value: the dynamic type is a term (decided by case analysis at call sites)
+		if iv.tagT != nil && env.pkg != nil {
+			if obj := env.pkg.Scope().Lookup(want); obj != nil {
+				var t types.Type = types.NewPointer(obj.Type())
+				if s, ok := underlying(obj.Type()).(*types.Struct); ok && s.NumFields() == 0 {
+					t = obj.Type()
+				}
+				return mkAnd(mkNot(iv.null), mkEq(iv.tagT, dynTypeTerm(t)))
 			}
 		}
 		env.fail("isdyn(%s, %s): undecided (split dyn missing)", exprString(n.Args[0]), want)
@@ -224,6 +237,21 @@ func init() {
 			env.fail("foreign(%s, ..): not a symbolic interface value", exprString(n.Args[0]))
 		}
 		return foreignResult(env.state(), iv, exprString(n.Args[1]), types.Typ[types.Uint], false)
+	}
+	// osrand(): the reader crypto/rand.Reader
+	specFuncs["osrand"] = func(env *SpecEnv, n *ast.CallExpr) Value {
+		return &IfaceVal{null: tFalse, tagT: mkIntVarR("rand.Reader.dyn", nil, nil), obj: "rand.Reader"}
+	}
+	specFuncs["sampok"] = func(env *SpecEnv, n *ast.CallExpr) Value {
+		return mkApp("sampok", SBool, env.term(n.Args[0]), env.term(n.Args[1]))
+	}
+	specFuncs["sampv"] = func(env *SpecEnv, n *ast.CallExpr) Value {
+		t := mkApp("sampv", SInt, env.term(n.Args[0]), env.term(n.Args[1]))
+		t.Lo = big0
+		return t
+	}
+	specFuncs["samps"] = func(env *SpecEnv, n *ast.CallExpr) Value {
+		return mkApp("samps", SInt, env.term(n.Args[0]), env.term(n.Args[1]))
 	}
 	specFuncs["rdstate"] = func(env *SpecEnv, n *ast.CallExpr) Value {
 		v := env.eval(n.Args[0])
@@ -262,5 +290,232 @@ func init() {
 	}
 	specFuncs["bstrn"] = func(env *SpecEnv, n *ast.CallExpr) Value {
 		return mkApp("bstr", SInt, env.term(n.Args[0]), env.term(n.Args[1]))
+	}
+}
+
+// ---------------------------------------------------------------------------- hash objects
+//
+// A hash object (sha256, hmac-sha256, a crypto.Hash instance) has the abstract state
+//     init-state                      sha256$init | hmacsha256$init(bstr(key)) | hash$init(id)
+//     absorb(s, bstr(b))              after Write(b)
+// and Sum(b) appends the digest bytes  hashout(s)[0..size)  to b without changing the state.  hashout / absorb and
+// the init functions are uninterpreted: the model says that the digest is a function of the sequence of byte
+// strings written (as written: chunk boundaries are part of the model's state; specifications use the same chunks).
+
+type hashKind struct {
+	init *Term
+	size int64
+}
+
+func (e *Engine) newHashObject(st *State, name string, init *Term, size, block int64) *IfaceVal {
+	id := e.freshName(name)
+	st.setObjState("o:"+id, init)
+	st.ghost["hashinit:o:"+id] = init
+	st.ghost["hashsize:o:"+id] = mkInt64(size)
+	st.ghost["hashblock:o:"+id] = mkInt64(block)
+	return &IfaceVal{null: tFalse, tagT: mkIntVarR(id+".dyn", nil, nil), obj: id}
+}
+
+func hashoutArr(s *Term) *Term {
+	t := mkApp("hashout", SArr, s)
+	t.Lo, t.Hi = big0, big.NewInt(255)
+	return t
+}
+
+// digestSlice materialises the digest of state s as a fresh byte slice of the given size.
+func (e *Engine) digestSlice(st *State, s *Term, size int64) *SliceVal {
+	at := types.NewArray(types.Typ[types.Uint8], size)
+	r := e.newRegion(e.freshName("digest"), at, true)
+	r.created = st.epoch + 1
+	out := hashoutArr(s)
+	for i := int64(0); i < size; i++ {
+		st.mem.cells[pathKey(r.id, []int{int(i)})] = mkSelect(out, mkInt64(i))
+	}
+	n := mkInt64(size)
+	return &SliceVal{reg: r, off: mkInt64(0), length: n, capacity: n, elem: types.Typ[types.Uint8], backingN: size}
+}
+
+func (e *Engine) hashObj(st *State, v Value, what string) (string, int64) {
+	id, ok := e.objID(v)
+	if !ok {
+		e.fail("%s on a value that is not a modelled hash object", what)
+	}
+	sz, ok := st.ghost["hashsize:"+id]
+	if !ok {
+		e.fail("%s on an object that is not a modelled hash object", what)
+	}
+	return id, sz.(*Term).Val.Int64()
+}
+
+func init() {
+	doc := "hash object model: state = init | absorb(state, bstr(b)); Sum appends hashout(state)[0..size); uninterpreted functions; the object writes only the buffers passed to it and retains none"
+	intrinsicDoc["crypto/sha256.New"] = doc
+	intrinsicDoc["crypto/sha256.Sum256"] = "digest of one byte string: hashout(absorb(sha256$init, bstr(data)))[0..32)"
+	intrinsicDoc["crypto/hmac.New"] = doc + "; hmac.New(sha256.New, key) starts in hmacsha256$init(bstr(key))"
+	intrinsicDoc["(crypto.Hash).New"] = doc + "; for hash id h the initial state is hash$init(h) (SHA-256, id 5: sha256$init)"
+	intrinsicDoc["crypto/subtle.XORBytes"] = "dst[i] = x[i] ^ y[i] for i < min(len(x), len(y)); panics if dst is shorter (obligation)"
+
+	sha256Init := func() *Term { return mkApp("sha256$init", SInt) }
+	intrinsics["crypto/sha256.New"] = func(e *Engine, st *State, fr *Frame, args []Value, in *ssa.Call) Value {
+		e.usedIntrinsic("crypto/sha256.New")
+		return e.newHashObject(st, "sha256", sha256Init(), 32, 64)
+	}
+	intrinsics["crypto/sha256.Sum256"] = func(e *Engine, st *State, fr *Frame, args []Value, in *ssa.Call) Value {
+		e.usedIntrinsic("crypto/sha256.Sum256")
+		env := &SpecEnv{e: e, st: st, fnName: "sha256.Sum256"}
+		sl := args[0].(*SliceVal)
+		s := mkApp("absorb", SInt, sha256Init(), env.bstr(env.nonNil(sl)))
+		out := hashoutArr(s)
+		a := &AggVal{typ: in.Type()}
+		for i := int64(0); i < 32; i++ {
+			a.elems = append(a.elems, mkSelect(out, mkInt64(i)))
+		}
+		return a
+	}
+	intrinsics["crypto/hmac.New"] = func(e *Engine, st *State, fr *Frame, args []Value, in *ssa.Call) Value {
+		e.usedIntrinsic("crypto/hmac.New")
+		fv, ok := args[0].(*FuncVal)
+		if !ok {
+			e.fail("hmac.New: hash constructor is not a function value")
+		}
+		if fn, ok := fv.fn.(*ssa.Function); !ok || fn.String() != "crypto/sha256.New" {
+			e.fail("hmac.New: only sha256.New is modelled")
+		}
+		env := &SpecEnv{e: e, st: st, fnName: "hmac.New"}
+		key := args[1].(*SliceVal)
+		return e.newHashObject(st, "hmacsha256", mkApp("hmacsha256$init", SInt, env.bstr(env.nonNil(key))), 32, 64)
+	}
+	intrinsics["(crypto.Hash).New"] = func(e *Engine, st *State, fr *Frame, args []Value, in *ssa.Call) Value {
+		e.usedIntrinsic("(crypto.Hash).New")
+		h := args[0].(*Term)
+		if !h.IsConst() || h.Val.Int64() != 5 {
+			e.fail("(crypto.Hash).New: only SHA-256 (id 5) is modelled; the hash id must be fixed by a precondition")
+		}
+		return e.newHashObject(st, "sha256", sha256Init(), 32, 64)
+	}
+	intrinsics["invoke hash.Hash.Write"] = func(e *Engine, st *State, fr *Frame, args []Value, in *ssa.Call) Value {
+		env := &SpecEnv{e: e, st: st, fnName: "hash.Write"}
+		id, _ := e.hashObj(st, args[0], "Write")
+		sl := env.nonNil(args[1].(*SliceVal))
+		st.setObjState(id, mkApp("absorb", SInt, st.objState(id), env.bstr(sl)))
+		return tuple(sl.length, &IfaceVal{null: tTrue})
+	}
+	intrinsics["invoke hash.Hash.Sum"] = func(e *Engine, st *State, fr *Frame, args []Value, in *ssa.Call) Value {
+		id, size := e.hashObj(st, args[0], "Sum")
+		d := e.digestSlice(st, st.objState(id), size)
+		b := args[1].(*SliceVal)
+		if b.reg == nil {
+			return d // Sum(nil): a fresh slice holding the digest
+		}
+		return e.appendSlices(st, fr, b, d)
+	}
+	intrinsics["invoke hash.Hash.Reset"] = func(e *Engine, st *State, fr *Frame, args []Value, in *ssa.Call) Value {
+		id, _ := e.hashObj(st, args[0], "Reset")
+		st.setObjState(id, st.ghost["hashinit:"+id].(*Term))
+		return nil
+	}
+	intrinsics["invoke hash.Hash.Size"] = func(e *Engine, st *State, fr *Frame, args []Value, in *ssa.Call) Value {
+		_, size := e.hashObj(st, args[0], "Size")
+		return mkInt64(size)
+	}
+	intrinsics["invoke hash.Hash.BlockSize"] = func(e *Engine, st *State, fr *Frame, args []Value, in *ssa.Call) Value {
+		id, _ := e.hashObj(st, args[0], "BlockSize")
+		return st.ghost["hashblock:"+id].(*Term)
+	}
+	intrinsics["crypto/subtle.XORBytes"] = func(e *Engine, st *State, fr *Frame, args []Value, in *ssa.Call) Value {
+		e.usedIntrinsic("crypto/subtle.XORBytes")
+		dst, x, y := args[0].(*SliceVal), args[1].(*SliceVal), args[2].(*SliceVal)
+		n := minTerm(x.length, y.length)
+		if !n.IsConst() {
+			e.fail("XORBytes with symbolic lengths")
+		}
+		e.addObligation(st, fr, "safety", "XORBytes.dst", mkLe(n, dst.length), "subtle.XORBytes: dst is at least as long as the shorter input")
+		k := n.Val.Int64()
+		vals := make([]*Term, k)
+		for i := int64(0); i < k; i++ {
+			vals[i] = e.bitOp(token.XOR, e.sliceElem(st, x, mkInt64(i)), e.sliceElem(st, y, mkInt64(i)), types.Typ[types.Uint8])
+		}
+		for i := int64(0); i < k; i++ {
+			e.sliceElemStore(st, dst, mkInt64(i), vals[i])
+		}
+		return n
+	}
+	// specification side
+	specFuncs["sha256init"] = func(env *SpecEnv, n *ast.CallExpr) Value { return sha256Init() }
+	specFuncs["hmacinit"] = func(env *SpecEnv, n *ast.CallExpr) Value {
+		return mkApp("hmacsha256$init", SInt, env.term(n.Args[0]))
+	}
+	// hashint(s, n): big-endian integer of the first n digest bytes of state s;  hashbyte(s, i): byte i
+	specFuncs["hashint"] = func(env *SpecEnv, n *ast.CallExpr) Value {
+		s, k := env.term(n.Args[0]), env.term(n.Args[1])
+		if !k.IsConst() {
+			env.fail("hashint needs a constant length")
+		}
+		out := hashoutArr(s)
+		var bs []*Term
+		for i := int64(0); i < k.Val.Int64(); i++ {
+			bs = append(bs, mkSelect(out, mkInt64(i)))
+		}
+		return os2ipTerms(bs)
+	}
+	specFuncs["hashbyte"] = func(env *SpecEnv, n *ast.CallExpr) Value {
+		return mkSelect(hashoutArr(env.term(n.Args[0])), env.term(n.Args[1]))
+	}
+	// xor8(a, b): bytewise exclusive or, the same term the engine builds for a ^ b on bytes
+	specFuncs["xor8"] = func(env *SpecEnv, n *ast.CallExpr) Value {
+		return env.e.bitOp(token.XOR, env.term(n.Args[0]), env.term(n.Args[1]), types.Typ[types.Uint8])
+	}
+}
+
+// ---------------------------------------------------------------------------- abstract byte strings
+
+// bstrConst: the abstract value of a literal byte string.
+func bstrConst(b []byte) *Term {
+	return mkApp("bstr", SInt, mkInt64(int64(len(b))), mkInt(new(big.Int).SetBytes(b)))
+}
+
+func bstrParts(t *Term) (n int64, v *big.Int, ok bool) {
+	if t.Op == "app" && t.Name == "bstr" && len(t.Args) == 2 && t.Args[0].IsConst() && t.Args[1].IsConst() {
+		return t.Args[0].Val.Int64(), t.Args[1].Val, true
+	}
+	return 0, nil, false
+}
+
+// mkBcat: concatenation of abstract byte strings (literal operands are folded).
+func mkBcat(a, b *Term) *Term {
+	if na, va, ok := bstrParts(a); ok {
+		if nb, vb, ok := bstrParts(b); ok {
+			v := new(big.Int).Lsh(va, uint(8*nb))
+			v.Add(v, vb)
+			return mkApp("bstr", SInt, mkInt64(na+nb), mkInt(v))
+		}
+	}
+	return mkApp("bcat", SInt, a, b)
+}
+
+func strAbs(s *StrVal) *Term {
+	if s.known {
+		return bstrConst([]byte(s.s))
+	}
+	return s.abs
+}
+
+func init() {
+	specFuncs["strabs"] = func(env *SpecEnv, n *ast.CallExpr) Value {
+		sv, ok := env.eval(n.Args[0]).(*StrVal)
+		if !ok || strAbs(sv) == nil {
+			env.fail("strabs(%s): not a string with an abstract value", exprString(n.Args[0]))
+		}
+		return strAbs(sv)
+	}
+	specFuncs["bcat"] = func(env *SpecEnv, n *ast.CallExpr) Value {
+		return mkBcat(env.term(n.Args[0]), env.term(n.Args[1]))
+	}
+	specFuncs["bstrs"] = func(env *SpecEnv, n *ast.CallExpr) Value {
+		sv, ok := env.eval(n.Args[0]).(*StrVal)
+		if !ok || !sv.known {
+			env.fail("bstrs needs a string literal")
+		}
+		return bstrConst([]byte(sv.s))
 	}
 }
